@@ -68,6 +68,11 @@ def step (st : St) (op : String) : St × Option String :=
       ⟨(kvGet kv "id").getD which, (kvGet kv "desc").getD "", splitList ((kvGet kv "lists").getD "")⟩
     (if which == "A" then { st with ma := m } else { st with mb := m }, none)
   | "diff" :: _ => (st, some ("ok d=" ++ showDiff (diffBundles st.a st.b)))
+  | "updatef" :: rest =>
+    -- judge: an update through an unfriendly destination (one failing call; slow with a 0/negative
+    -- concurrency setting) reported an error, or left exactly what a fresh download leaves
+    let got := ((rest.filterMap fun t => if t.startsWith "got=" then some ((t.drop 4).toString) else none).head?).getD ""
+    (st, some (if got == "same" || got == "err" then "sound" else "UNSOUND"))
   | "update" :: rest =>
     let content := contentOf st.content
     let res :=
